@@ -84,16 +84,48 @@ struct Tally {
 };
 Tally T_;
 
+// ---- failure reporting and sampling are kept out of line (non-template) so that the ~3000 template
+// instantiations below stay tiny
+__attribute__((noinline)) void reportLess(const char *ta, const char *tb, i128 a, i128 b, bool ref)
+{
+    V::failKey(std::string("Less<") + ta + "," + tb + ">", "Less(" + show(a) + ", " + show(b) + ") returned " + (ref ? "false" : "true"));
+}
+__attribute__((noinline)) void sampleLess(const char *ta, const char *tb, i128 a, i128 b, bool ref)
+{
+    V::sample(std::string("Less<") + ta + "," + tb + ">(" + show(a) + ", " + show(b) + ") = " + (ref ? "true" : "false"));
+}
+__attribute__((noinline)) void reportSum(const char *fn, const char *sig, int nargs, i128 a, i128 b, i128 c, bool has, i128 got, bool fits, i128 want, bool clamp)
+{
+    std::string args = show(a) + ", " + show(b);
+    if (nargs == 3) args += ", " + show(c);
+    if (clamp)
+        V::failKey(std::string(fn) + sig, std::string(fn) + "(" + args + ") stored " + show(got) + ", expected " + show(want));
+    else
+        V::failKey(std::string(fn) + sig, std::string(fn) + "(" + args + ") returned " + (has ? show(got) : std::string("nothing")) + ", expected " + (fits ? show(want) : std::string("nothing")));
+}
+__attribute__((noinline)) void sampleSum(const char *sig, i128 s, i128 t, i128 sum, i128 max)
+{
+    V::sample(std::string("IncreaseSum") + sig + "(" + show(s) + ", " + show(t) + ") = nothing (exact sum " + show(sum) + " > " + show(max) + ")");
+}
+
+template <class... Ts> struct Sig;
+template <class T> struct Sig<T> { static std::string str() { return tname<T>(); } };
+template <class T, class... Ts> struct Sig<T, Ts...> { static std::string str() { return std::string(tname<T>()) + "," + Sig<Ts...>::str(); } };
+template <class S, class... Ts> const char *sigOf()
+{
+    static const std::string s = std::string("<") + tname<S>() + ">(" + Sig<Ts...>::str() + ")";
+    return s.c_str();
+}
+
 // ---- one evaluation of each helper against the reference
 template <class A, class B> inline bool checkLess(const A a, const B b)
 {
     const bool ref = (i128)a < (i128)b;
     ++T_.evals;
-    if (((i128)a < 0) != ((i128)b < 0)) ++T_.lessMixed; else ++T_.lessSame;
-    if (Less(a, b) != ref) {
-        V::failKey(std::string("Less<") + tname<A>() + "," + tname<B>() + ">", "Less(" + show(a) + ", " + show(b) + ") returned " + (ref ? "false" : "true"));
-        return false;
-    }
+    const bool mixed = ((i128)a < 0) != ((i128)b < 0);
+    if (mixed) ++T_.lessMixed; else ++T_.lessSame;
+    if (mixed && (T_.evals & 0xfffff) == 5) sampleLess(tname<A>(), tname<B>(), a, b, ref);
+    if (Less(a, b) != ref) { reportLess(tname<A>(), tname<B>(), a, b, ref); return false; }
     return true;
 }
 
@@ -105,15 +137,15 @@ template <class S, class T> inline bool checkIncrease(const S s, const T t)
     ++T_.evals;
     if (neg) ++T_.sumNegative; else if (fits) ++T_.sumExact; else ++T_.sumOverflow;
     const std::optional<S> r = IncreaseSum(s, t);
+    if (!fits && !neg && (T_.evals & 0xfffff) == 11) sampleSum(sigOf<S, S, T>(), s, t, sum, tmax<S>());
     if (r.has_value() != fits || (fits && (i128)r.value() != sum)) {
-        V::failKey(std::string("IncreaseSum<") + tname<S>() + "," + tname<T>() + ">", "IncreaseSum(" + show(s) + ", " + show(t) + ") returned " +
-                   (r.has_value() ? show(r.value()) : std::string("nothing")) + ", expected " + (fits ? show(sum) : std::string("nothing")));
+        reportSum("IncreaseSum", sigOf<S, S, T>(), 2, s, t, 0, r.has_value(), r.has_value() ? (i128)r.value() : 0, fits, sum, false);
         return false;
     }
     return true;
 }
 
-template <class S, class A, class B> inline bool checkNatural2(const A a, const B b)
+template <class S, class A, class B> bool checkNatural2(const A a, const B b)
 {
     const i128 sum = (i128)a + (i128)b;
     const bool neg = (i128)a < 0 || (i128)b < 0;
@@ -122,8 +154,7 @@ template <class S, class A, class B> inline bool checkNatural2(const A a, const 
     if (neg) ++T_.sumNegative; else if (fits) ++T_.sumExact; else ++T_.sumOverflow;
     const std::optional<S> r = NaturalSum<S>(a, b);
     if (r.has_value() != fits || (fits && (i128)r.value() != sum)) {
-        V::failKey(std::string("NaturalSum<") + tname<S>() + ">(" + tname<A>() + "," + tname<B>() + ")", "NaturalSum(" + show(a) + ", " + show(b) + ") returned " +
-                   (r.has_value() ? show(r.value()) : std::string("nothing")) + ", expected " + (fits ? show(sum) : std::string("nothing")));
+        reportSum("NaturalSum", sigOf<S, A, B>(), 2, a, b, 0, r.has_value(), r.has_value() ? (i128)r.value() : 0, fits, sum, false);
         return false;
     }
     S var = 42;
@@ -131,14 +162,13 @@ template <class S, class A, class B> inline bool checkNatural2(const A a, const 
     const i128 want = fits ? sum : tmax<S>();
     if (fits) ++T_.clampExact; else ++T_.clampMax;
     if ((i128)var != want || (i128)ret != want) {
-        V::failKey(std::string("SetToNaturalSumOrMax<") + tname<S>() + ">(" + tname<A>() + "," + tname<B>() + ")", "SetToNaturalSumOrMax(" + show(a) + ", " + show(b) + ") stored " +
-                   show(var) + ", expected " + show(want));
+        reportSum("SetToNaturalSumOrMax", sigOf<S, A, B>(), 2, a, b, 0, true, var, fits, want, true);
         return false;
     }
     return true;
 }
 
-template <class S, class A, class B, class C> inline bool checkNatural3(const A a, const B b, const C c)
+template <class S, class A, class B, class C> bool checkNatural3(const A a, const B b, const C c)
 {
     const i128 sum = (i128)a + (i128)b + (i128)c;
     const bool neg = (i128)a < 0 || (i128)b < 0 || (i128)c < 0;
@@ -147,8 +177,7 @@ template <class S, class A, class B, class C> inline bool checkNatural3(const A 
     if (neg) ++T_.sumNegative; else if (fits) ++T_.sumExact; else ++T_.sumOverflow;
     const std::optional<S> r = NaturalSum<S>(a, b, c);
     if (r.has_value() != fits || (fits && (i128)r.value() != sum)) {
-        V::failKey(std::string("NaturalSum<") + tname<S>() + ">(" + tname<A>() + "," + tname<B>() + "," + tname<C>() + ")", "NaturalSum(" + show(a) + ", " + show(b) + ", " + show(c) + ") returned " +
-                   (r.has_value() ? show(r.value()) : std::string("nothing")) + ", expected " + (fits ? show(sum) : std::string("nothing")));
+        reportSum("NaturalSum", sigOf<S, A, B, C>(), 3, a, b, c, r.has_value(), r.has_value() ? (i128)r.value() : 0, fits, sum, false);
         return false;
     }
     S var = 7;
@@ -156,8 +185,7 @@ template <class S, class A, class B, class C> inline bool checkNatural3(const A 
     const i128 want = fits ? sum : tmax<S>();
     if (fits) ++T_.clampExact; else ++T_.clampMax;
     if ((i128)var != want) {
-        V::failKey(std::string("SetToNaturalSumOrMax<") + tname<S>() + ">(" + tname<A>() + "," + tname<B>() + "," + tname<C>() + ")", "SetToNaturalSumOrMax(" + show(a) + ", " + show(b) + ", " + show(c) + ") stored " +
-                   show(var) + ", expected " + show(want));
+        reportSum("SetToNaturalSumOrMax", sigOf<S, A, B, C>(), 3, a, b, c, true, var, fits, want, true);
         return false;
     }
     return true;
